@@ -298,6 +298,14 @@ func (x *Extractor) walkAt(fn *ssa.Function, e *env, mf *MethodFacts, via []stri
 					mf.FieldsSet[g.Name()] = append(mf.FieldsSet[g.Name()], describeVal(x.eval(ins.Val, e)))
 					mf.SetOrder = append(mf.SetOrder, g.Name())
 				}
+				// a store through a pointer the function received (a helper that works on &c.field)
+				if _, isParam := ins.Addr.(*ssa.Parameter); isParam {
+					if pv, ok := x.eval(ins.Addr, e).(PtrV); ok && pv.FA != nil && x.isConvPtr(pv.FA.X.Type()) {
+						name := structFieldName(pv.FA.X.Type(), pv.FA.Field)
+						mf.FieldsSet[name] = append(mf.FieldsSet[name], describeVal(x.eval(ins.Val, e)))
+						mf.SetOrder = append(mf.SetOrder, name)
+					}
+				}
 			case *ssa.MapUpdate:
 				x.recordKeyedSet(ins, e, mf)
 			case *ssa.UnOp:
@@ -450,6 +458,14 @@ func (x *Extractor) walkEffects(fn *ssa.Function, e *env, mf *MethodFacts, seen 
 					mf.FieldsSet[g.Name()] = append(mf.FieldsSet[g.Name()], describeVal(x.eval(ins.Val, e)))
 					mf.SetOrder = append(mf.SetOrder, g.Name())
 				}
+				// a store through a pointer the function received (a helper that works on &c.field)
+				if _, isParam := ins.Addr.(*ssa.Parameter); isParam {
+					if pv, ok := x.eval(ins.Addr, e).(PtrV); ok && pv.FA != nil && x.isConvPtr(pv.FA.X.Type()) {
+						name := structFieldName(pv.FA.X.Type(), pv.FA.Field)
+						mf.FieldsSet[name] = append(mf.FieldsSet[name], describeVal(x.eval(ins.Val, e)))
+						mf.SetOrder = append(mf.SetOrder, name)
+					}
+				}
 			case *ssa.MapUpdate:
 				x.recordKeyedSet(ins, e, mf)
 			case *ssa.UnOp:
@@ -559,6 +575,8 @@ func describeVal(v Val) string {
 		return "list(" + describeVal(v.Elem) + ")"
 	case OpaqueV:
 		return v.Origin
+	case PtrV:
+		return "pointer"
 	case nil:
 		return "nil"
 	}
